@@ -11,7 +11,11 @@ CH[r25]="C19"; CH[r26]="C10 C12 C13 C09"; CH[r27]="C11 C09 C13"; CH[r28]="C11 C0
 CH[r29]="C01 C02 C05 C06 C07 C04 C08"; CH[r30]="C01 C02 C05 C06 C04"; CH[r31]="C01 C02 C05 C06 C04"; CH[r32]="C03 C01 C07"
 CH[r33]="C08 C01 C03"; CH[r34]="C14 C04 C01"; CH[r35]="C17 C01 C03"; CH[r36]="C19"; CH[r37]="C20"; CH[r38]="C12 C10 C09 C13"
 CH[r39]="C10 C12 C13 C09"; CH[r40]="C13 C10 C12 C09"; CH[r41]="C11 C09 C13"; CH[r42]="C09 C11"
-LIST="$@"; [ -z "$LIST" ] && LIST=$(seq -f 'r%g' 1 42)
+# batch 4
+CH[r43]="C09 C11"; CH[r44]="C09"; CH[r45]="C12 C10 C09 C13"; CH[r46]="C10 C12 C13 C09"; CH[r47]="C11 C09 C13"; CH[r48]="C11 C09 C13"
+CH[r49]="C01 C02 C05 C06 C04 C07"; CH[r50]="C01 C02 C03 C07 C08"; CH[r51]="C01 C02 C05 C06 C04"; CH[r52]="C01 C02 C05 C06 C04 C07"
+CH[r53]="C16 C01 C08"; CH[r54]="C15 C14 C04 C01"; CH[r55]="C18 C17 C15 C01"; CH[r56]="C19 C20"
+LIST="$@"; [ -z "$LIST" ] && LIST=$(seq -f 'r%g' 1 56)
 for r in $LIST; do
   WT=/tmp/negwt.$r; git -C /repo worktree add -q --detach $WT HEAD
   (cd $WT && git apply /verif/refactors/$r/patch.diff) || { echo "$r PATCH DOES NOT APPLY"; git -C /repo worktree remove --force $WT; continue; }
